@@ -8,7 +8,7 @@ use crate::rng::Rng;
 use anchor_lang::prelude::*;
 use anchor_lang::Discriminator;
 use marginfi::constants::SWITCHBOARD_PULL_ID;
-use marginfi::state::price::{OraclePriceFeedAdapter, OraclePriceType, PriceAdapter};
+use marginfi::state::price::{OraclePriceFeedAdapter, OraclePriceType, PriceAdapter, PriceBias};
 use marginfi_type_crate::types::{Bank, OracleSetup};
 use pyth_solana_receiver_sdk::price_update::{PriceFeedMessage, PriceUpdateV2, VerificationLevel};
 use std::panic::{catch_unwind, AssertUnwindSafe};
@@ -508,6 +508,131 @@ pub fn venue_value_lines(rng: &mut Rng, n: usize, out: &mut Vec<String>) {
     }
 }
 
+
+/// `ig.v4 <venue> <kind> <x y z> p conf ema emaConf maxConf => r1 ; r2 ; r3 ; r4`: all six venue arms of the REAL adapter with a
+/// NON-ZERO confidence and a time-weighted price of its own, read out the four ways the risk engine and the liquidation code
+/// read a feed (real-time unbiased / low, time-weighted unbiased / high): every component the arm re-scales shows up in one of them
+pub fn venue_v4_lines(rng: &mut Rng, n: usize, out: &mut Vec<String>) {
+    crate::stubs::install();
+    let setups = [
+        (OracleSetup::KaminoPythPush, 0u8, 1u8), (OracleSetup::KaminoSwitchboardPull, 0, 2),
+        (OracleSetup::SolendPythPull, 1, 1), (OracleSetup::SolendSwitchboardPull, 1, 2),
+        (OracleSetup::DriftPythPull, 2, 1), (OracleSetup::DriftSwitchboardPull, 2, 2),
+    ];
+    for i in 0..n {
+        let (setup, venue, kind) = setups[i % setups.len()];
+        let (slot, now) = (1000u64 + rng.below(1000), 1_700_000_000i64 + rng.range(0, 1_000_000));
+        crate::stubs::set_clock(now, slot);
+        let clock = Clock { slot, epoch_start_timestamp: 0, epoch: 0, leader_schedule_epoch: 0, unix_timestamp: now };
+        let okey = Pubkey::new_from_array([3u8; 32]);
+        let vkey = Pubkey::new_from_array([5u8; 32]);
+        let mut bank = Bank::default();
+        bank.config.oracle_setup = setup;
+        bank.config.oracle_max_age = 60;
+        bank.config.oracle_keys[0] = okey;
+        bank.config.oracle_keys[1] = vkey;
+        let mc: u32 = *rng.pick(&[0u32, 0, u32::MAX, u32::MAX / 10, u32::MAX / 50]);
+        bank.config.oracle_max_confidence = mc;
+        let (l, c, d, p) = crate::fam_integr::gen_reserve_price(rng);
+        let mut vdata: Vec<u8> = Vec::new();
+        let vowner;
+        let (x, y, z): (i128, u64, u8);
+        match venue {
+            0 => {
+                if l < 0 || (l >> 48) > u64::MAX as i128 { continue; }
+                let mut r: kamino_mocks::state::MinimalReserve = bytemuck::Zeroable::zeroed();
+                r.slot = slot;
+                r.available_amount = (l >> 48) as u64;
+                r.borrowed_amount_sf = (((l & ((1i128 << 48) - 1)) as u128) << 12).to_le_bytes();
+                r.mint_total_supply = c;
+                r.mint_decimals = d as u64;
+                vdata.extend_from_slice(<kamino_mocks::state::MinimalReserve as Discriminator>::DISCRIMINATOR);
+                vdata.extend_from_slice(bytemuck::bytes_of(&r));
+                vowner = kamino_mocks::ID;
+                (x, y, z) = (l, c, d);
+            }
+            1 => {
+                if l < 0 || (l >> 48) > u64::MAX as i128 { continue; }
+                let mut r: solend_mocks::state::SolendMinimalReserve = bytemuck::Zeroable::zeroed();
+                r.last_update_slot = slot;
+                r.liquidity_available_amount = (l >> 48) as u64;
+                r.collateral_mint_total_supply = c;
+                r.liquidity_mint_decimals = d;
+                vdata.extend_from_slice(<solend_mocks::state::SolendMinimalReserve as Discriminator>::DISCRIMINATOR);
+                vdata.extend_from_slice(bytemuck::bytes_of(&r));
+                vowner = solend_mocks::ID;
+                (x, y, z) = ((l >> 48) << 48, c, d);
+            }
+            _ => {
+                let cum = crate::fam_integr::cum_interest(rng);
+                let m = crate::fam_integr::spot_market(rng.below(20) as u32, cum, now as u64);
+                vdata.extend_from_slice(<drift_mocks::state::MinimalSpotMarket as Discriminator>::DISCRIMINATOR);
+                vdata.extend_from_slice(bytemuck::bytes_of(&m));
+                vowner = drift_mocks::ID;
+                (x, y, z) = (cum as i128, 0, 0);
+            }
+        }
+        // price components: a positive price, a time-weighted price within +-10 %, confidences of 0 .. 6 % (around the gates)
+        let pa = p.unsigned_abs().max(1);
+        let conf_of = |rng: &mut Rng, base: u128| -> u128 { match rng.below(6) { 0 => 0, 1 => base / 1000, 2 => base / 50, 3 => base / 25, 4 => base / 200, _ => rng.below((base / 20).max(1).min(u64::MAX as u128) as u64) as u128 } };
+        let (pv, cv, ev, ecv): (i128, i128, i128, i128);
+        let mut odata = Vec::new();
+        let oowner;
+        if kind == 1 {
+            let p64 = (pa.min(i64::MAX as u128 / 4)) as i64;
+            let ema = ((p64 as i128) * (90 + rng.below(21) as i128) / 100) as i64;
+            let conf = conf_of(rng, p64 as u128).min(u64::MAX as u128) as u64;
+            let ema_conf = conf_of(rng, ema.unsigned_abs() as u128).min(u64::MAX as u128) as u64;
+            let upd = PriceUpdateV2 {
+                write_authority: Pubkey::default(),
+                verification_level: VerificationLevel::Full,
+                price_message: PriceFeedMessage { feed_id: okey.to_bytes(), price: p64, conf, exponent: 0, publish_time: now - 1, prev_publish_time: now - 2, ema_price: ema, ema_conf },
+                posted_slot: slot,
+            };
+            odata.extend_from_slice(<PriceUpdateV2 as Discriminator>::DISCRIMINATOR);
+            upd.serialize(&mut odata).unwrap();
+            if odata.len() < PriceUpdateV2::LEN { odata.resize(PriceUpdateV2::LEN, 0); }
+            oowner = pyth_solana_receiver_sdk::id();
+            (pv, cv, ev, ecv) = (p64 as i128, conf as i128, ema as i128, ema_conf as i128);
+        } else {
+            let value = pa.min(i128::MAX as u128 / 4) as i128;
+            let sd = conf_of(rng, value as u128) as i128;
+            let mut feed: PullFeedAccountData = bytemuck::Zeroable::zeroed();
+            feed.result.value = value;
+            feed.result.std_dev = sd;
+            feed.last_update_timestamp = now - 1;
+            odata.extend_from_slice(&<PullFeedAccountData as switchboard_on_demand::Discriminator>::DISCRIMINATOR);
+            odata.extend_from_slice(bytemuck::bytes_of(&feed));
+            oowner = SWITCHBOARD_PULL_ID;
+            (pv, cv, ev, ecv) = (value, sd, value, sd);
+        }
+        let (mut l1, mut l2) = (1u64, 1u64);
+        let a0 = AccountInfo::new(&okey, false, false, &mut l1, &mut odata, &oowner, false, 0);
+        let a1 = AccountInfo::new(&vkey, false, false, &mut l2, &mut vdata, &vowner, false, 0);
+        let ais = [a0, a1];
+        let ad = catch_unwind(AssertUnwindSafe(|| OraclePriceFeedAdapter::try_from_bank(&bank, &ais, &clock)));
+        let res = match ad {
+            Err(_) => "panic".to_string(),
+            Ok(Err(e)) => match crate::errcode(e) {
+                6062 => "none".to_string(),
+                c if venue == 2 && c == 6000 + drift_mocks::DriftMocksError::MathError as u32 => "none".to_string(),
+                _ => continue,
+            },
+            Ok(Ok(ad)) => {
+                let show = |t: OraclePriceType, b: Option<PriceBias>| -> String {
+                    match catch_unwind(AssertUnwindSafe(|| ad.get_price_of_type(t, b, mc))) {
+                        Err(_) => "panic".to_string(),
+                        Ok(Ok(v)) => format!("ok {}", v.to_bits()),
+                        Ok(Err(e)) => format!("err {}", crate::errcode(e)),
+                    }
+                };
+                [show(OraclePriceType::RealTime, None), show(OraclePriceType::RealTime, Some(PriceBias::Low)),
+                 show(OraclePriceType::TimeWeighted, None), show(OraclePriceType::TimeWeighted, Some(PriceBias::High))].join(" ; ")
+            }
+        };
+        out.push(format!("ig.v4 {} {} {} {} {} {} {} {} {} {} => {}", venue, kind, x, y, z, pv, cv, ev, ecv, mc, res));
+    }
+}
 
 /// the Kamino + Pyth arm of the REAL adapter as a function: reserve with total liquidity `l` (I80F48 bits), collateral
 /// supply `c`, `d` decimals, Pyth price `p` (exponent 0)  ->  the adjusted integer price, or None (error / not integral)
